@@ -77,7 +77,8 @@ func (e *env) execDL(op []string) (string, bool) {
 			st.hs = heights(op[1])
 			extra = "-"
 		case op[0] == "setcursor" && len(op) == 2:
-			d.SetCursor(uint(atoi(op[1])))
+			c, _ := strconv.ParseUint(op[1], 10, 64)
+			d.SetCursor(uint(c))
 		case op[0] == "pending" && len(op) == 2:
 			d.SetPendingScroll(atoi(op[1]))
 		case op[0] == "next" && len(op) == 1:
@@ -310,6 +311,13 @@ func genDyn(e *env, rng *gen.Rng) {
 			case 2:
 				if len(hs) > 0 {
 					ops = append(ops, fmt.Sprintf("dl setcursor %d", rng.Range(0, len(hs)-1)), fmt.Sprintf("dl draw %d %d", W, H))
+				}
+			case 3:
+				if rng.Chance(1, 4) {
+					// a cursor far beyond the items: uint(len(items)-1) of an empty list, 2^63, len+k
+					huge := gen.Pick(rng, []string{"18446744073709551615", "9223372036854775808", "9223372036854775807", fmt.Sprint(len(hs) + rng.Range(0, 3))})
+					ops = append(ops, "dl setcursor "+huge, fmt.Sprintf("dl draw %d %d", W, H))
+					r.Count("dl-replace-huge-cursor")
 				}
 			}
 		}
